@@ -123,6 +123,10 @@ type Fault struct {
 	Kind string `json:"kind"` // err (error instead of effect), errafter (effect, then error), stall
 	Ms   int    `json:"ms,omitempty"`
 	N    int    `json:"n,omitempty"` // number of consecutive occurrences affected (default 1)
+	// FromMs/ToMs: if ToMs > 0 the fault applies to every occurrence in that
+	// window of virtual time instead of by occurrence number.
+	FromMs int `json:"from_ms,omitempty"`
+	ToMs   int `json:"to_ms,omitempty"`
 }
 
 type Crash struct {
